@@ -602,6 +602,72 @@ theorem ocmStep_min_early {M : Vec → Nat → Nat → Option Int} {c : Nat → 
     · right
       exact ⟨p, hp1, by omega, by rw [(hlo p (by omega)).1]; exact hp3⟩
 
+/-- **finished columns are final**: an iteration of the loop never changes an entry at or below
+    `finished` — what `LineNumbers`' cache (never invalidated) and the closure's reads of
+    `minima[i].1` rely on, and why `lnGet` may recompute line numbers from the prefix it is given -/
+theorem ocmStep_prefix_stable {M : Vec → Nat → Nat → Option Int} {c : Nat → Nat → Int} {init : Int} {size : Nat}
+    (hM : MIsCost M c size) (hTM : OnlineTM c init size)
+    (s : Ocm Int) (inv : OcmInv2 c init size s) (hfin : s.finished < size - 1)
+    (s' : Ocm Int) (he : ocmStep M size s = some s') :
+    ∀ j, j ≤ s.finished → s'.result.getD j (0, 0) = s.result.getD j (0, 0) := by
+  have hfl := inv.base.fin_lt
+  have htl := inv.base.ten_lt
+  have hll := inv.base.len_le
+  unfold ocmStep at he
+  dsimp only at he
+  by_cases hc1 : s.tentative < s.finished + 1
+  · rw [if_pos hc1, range_drop, range_drop] at he
+    simp only [List.length_range'] at he
+    generalize htent : min (s.finished + (s.finished + 1 - s.base)) (size - 1) = tent at he
+    have hbl := inv.base.base_le
+    have ht1 : s.finished + 1 ≤ tent := by omega
+    have ht2 : tent ≤ size - 1 := by omega
+    have hmv : MVal (ocmM M size s) (fun i j => Dof s.result i + c i j)
+        (List.range' s.base (s.finished + 1 - s.base)) (List.range' (s.finished + 1) (tent + 1 - (s.finished + 1))) := by
+      intro r hr col hcol
+      simp only [List.mem_range'_1] at hr hcol
+      exact ocmM_val hM inv.base (by omega) (by omega) (by omega)
+    have htm : TMon (fun i j => Dof s.result i + c i j)
+        (List.range' s.base (s.finished + 1 - s.base)) (List.range' (s.finished + 1) (tent + 1 - (s.finished + 1))) := by
+      intro i hi i' hi' hii j hj j' hj' hjj hlt
+      simp only [List.mem_range'_1] at hi hi' hj hj'
+      exact hTM s.result s.finished inv.chain i i' j j' hii (by omega) (by omega) hjj (by omega) hlt
+    obtain ⟨mn, a1, a2, a3, _⟩ := smawkInner_min (ocmM M size s) (fun i j => Dof s.result i + c i j) _
+      (List.range' (s.finished + 1) (tent + 1 - (s.finished + 1)))
+      (List.range' s.base (s.finished + 1 - s.base)) (List.replicate (tent + 1) 0) (Nat.le_refl _)
+      List.pairwise_lt_range'
+      (by intro h; have := congrArg List.length h; simp at this; omega)
+      List.pairwise_lt_range'
+      (fun col hcol => by simp only [List.mem_range'_1] at hcol; simp; omega) hmv htm
+    rw [a1] at he
+    dsimp only at he
+    obtain ⟨res', b1, _, b3, _, _⟩ := ocmStore_val (ocmM M size s) mn
+      (fun col => Dof s.result (mn.getD col 0) + c (mn.getD col 0) col)
+      (tent + 1 - (s.finished + 1)) (s.finished + 1) s.result (by omega)
+      (fun col h1 h2 => by
+        have hr := (a3 col (by simp only [List.mem_range'_1]; omega)).1
+        simp only [List.mem_range'_1] at hr
+        exact ⟨by rw [a2]; simp; omega, ocmM_val hM inv.base (by omega) (by omega) (by omega)⟩)
+    rw [b1] at he
+    dsimp only at he
+    cases he
+    intro j hj
+    exact b3 j (by omega)
+  · rw [if_neg hc1] at he
+    simp only [Nat.add_sub_cancel] at he
+    rw [ocmM_val hM inv.base (Nat.le_refl _) (Nat.lt_succ_self _) (by omega)] at he
+    have hri : s.finished + 1 < s.result.length := by omega
+    rw [List.getElem?_eq_getElem hri] at he
+    dsimp only at he
+    split at he
+    · cases he
+      intro j hj
+      show (s.result.set _ _).getD j (0, 0) = _
+      rw [vec_getD_set _ _ _ _ hri, if_neg (by omega)]
+    · rw [ocmM_val hM inv.base (Nat.le_refl _) (by omega) (by omega), List.getElem?_eq_getElem htl] at he
+      dsimp only at he
+      split at he <;> (cases he; intro j _; rfl)
+
 theorem ocmStep_min {M : Vec → Nat → Nat → Option Int} {c : Nat → Nat → Int} {init : Int} {size : Nat}
     (hM : MIsCost M c size) (hTM : OnlineTM c init size)
     (s : Ocm Int) (inv : OcmInv2 c init size s) (hfin : s.finished < size - 1) :
@@ -665,5 +731,193 @@ theorem onlineColumnMinima_min {M : Vec → Nat → Nat → Option Int} {c : Nat
     exact ⟨Rof_lt inv.base.shape hj1 (by omega), inv.ach j hj1 (by omega)⟩
   · intro i j hij hj
     exact inv.A j (by omega) (by omega) i hij
+
+/-! ### a bound on every value, for ANY matrix with bounded increments
+
+No monotonicity here: if every matrix entry is `D i + e` with `0 ≤ e ≤ K`, every stored value —
+and hence every value the closure is ever asked to add to — stays within `init + j·K`. This is
+the exact-arithmetic half of "optimal-fit never reports an overflow error" (C04). -/
+
+/-- every entry the closure computes is the row's value plus an increment in `[0, K]` -/
+def MBounded (M : Vec → Nat → Nat → Option Int) (size : Nat) (K : Int) : Prop :=
+  ∀ pre i j, VecShape pre → i < pre.length → i < j → j < size →
+    ∃ e, M pre i j = some (Dof pre i + e) ∧ 0 ≤ e ∧ e ≤ K
+
+theorem MBounded.ok {M : Vec → Nat → Nat → Option Int} {size : Nat} {K : Int} (h : MBounded M size K) :
+    MOk M size := fun pre i j hs hi hij hj => by
+  obtain ⟨e, he, _⟩ := h pre i j hs hi hij hj
+  rw [he]; rfl
+
+structure OcmInvB (init K : Int) (size : Nat) (s : Ocm Int) : Prop where
+  base : OcmInv size s
+  lo : ∀ j, j < s.result.length → init ≤ Dof s.result j
+  hi : ∀ j, j < s.result.length → Dof s.result j ≤ init + (j : Int) * K
+
+theorem ocmM_bounded {M : Vec → Nat → Nat → Option Int} {size : Nat} {K : Int} (hM : MBounded M size K)
+    {s : Ocm Int} (inv : OcmInv size s) {i j : Nat} (hi : i ≤ s.finished) (hij : i < j) (hj : j < size) :
+    ∃ e, ocmM M size s i j = some (Dof s.result i + e) ∧ 0 ≤ e ∧ e ≤ K := by
+  have := inv.fin_lt
+  have hsz : i < size := by omega
+  simp only [ocmM, hij, hsz, hj, and_self, ↓reduceIte]
+  rw [if_pos (by omega)]
+  obtain ⟨e, h1, h2, h3⟩ := hM (s.result.take (s.finished + 1)) i j (inv.shape.take _)
+    (by rw [List.length_take]; omega) hij hj
+  exact ⟨e, by rw [h1, Dof_take _ _ _ (by omega)], h2, h3⟩
+
+theorem ocmStep_bounded {M : Vec → Nat → Nat → Option Int} {size : Nat} {init K : Int}
+    (hM : MBounded M size K) (hK : 0 ≤ K)
+    (s : Ocm Int) (inv : OcmInvB init K size s) (hfin : s.finished < size - 1) :
+    ∃ s', ocmStep M size s = some s' ∧ OcmInvB init K size s' ∧ s'.finished = s.finished + 1 := by
+  obtain ⟨s', he, b', f'⟩ := ocmStep_spec hM.ok s inv.base hfin
+  refine ⟨s', he, ?_, f'⟩
+  suffices hkey : ∀ j, j < s'.result.length → init ≤ Dof s'.result j ∧ Dof s'.result j ≤ init + (j : Int) * K from
+    ⟨b', fun j hj => (hkey j hj).1, fun j hj => (hkey j hj).2⟩
+  clear b' f'
+  have hfl := inv.base.fin_lt
+  have htl := inv.base.ten_lt
+  have hll := inv.base.len_le
+  have hbl := inv.base.base_le
+  -- a new entry `(row, D row + e)` at column `col > row` is within the bounds
+  have newentry : ∀ (row col : Nat) (e : Int), row ≤ s.finished → row < col → 0 ≤ e → e ≤ K →
+      init ≤ Dof s.result row + e ∧ Dof s.result row + e ≤ init + (col : Int) * K := by
+    intro row col e hr hrc h0 h1
+    have l := inv.lo row (by omega)
+    have h := inv.hi row (by omega)
+    have hc : (row : Int) + 1 ≤ (col : Int) := by exact_mod_cast hrc
+    have : (row : Int) * K + K ≤ (col : Int) * K := by
+      have := Int.mul_le_mul_of_nonneg_right hc hK
+      rw [Int.add_mul, Int.one_mul] at this
+      exact this
+    constructor <;> omega
+  unfold ocmStep at he
+  dsimp only at he
+  by_cases hc1 : s.tentative < s.finished + 1
+  · rw [if_pos hc1, range_drop, range_drop] at he
+    simp only [List.length_range'] at he
+    generalize htent : min (s.finished + (s.finished + 1 - s.base)) (size - 1) = tent at he
+    have ht1 : s.finished + 1 ≤ tent := by omega
+    have ht2 : tent ≤ size - 1 := by omega
+    have hmt : MTotal (ocmM M size s) (List.range' s.base (s.finished + 1 - s.base))
+        (List.range' (s.finished + 1) (tent + 1 - (s.finished + 1))) := by
+      intro r hr col hcol
+      simp only [List.mem_range'_1] at hr hcol
+      obtain ⟨e, h1, _⟩ := ocmM_bounded hM inv.base (by omega : r ≤ s.finished) (by omega : r < col) (by omega)
+      rw [h1]; rfl
+    obtain ⟨mn, a1, a2, a3, _, _⟩ := smawkInner_spec (ocmM M size s) _
+      (List.range' (s.finished + 1) (tent + 1 - (s.finished + 1)))
+      (List.range' s.base (s.finished + 1 - s.base)) (List.replicate (tent + 1) 0) (Nat.le_refl _)
+      List.pairwise_lt_range'
+      (by intro h; have := congrArg List.length h; simp at this; omega)
+      List.nodup_range' (fun col hcol => by simp only [List.mem_range'_1] at hcol; simp; omega) hmt
+    rw [a1] at he
+    dsimp only at he
+    have hrow : ∀ col, s.finished + 1 ≤ col → col ≤ tent → mn.getD col 0 ≤ s.finished := by
+      intro col h1 h2
+      have := a3 col (by simp only [List.mem_range'_1]; omega)
+      simp only [List.mem_range'_1] at this
+      omega
+    obtain ⟨res', b1, b2, b3, b4, b5⟩ := ocmStore_val (ocmM M size s) mn
+      (fun col => ((ocmM M size s (mn.getD col 0) col).getD 0))
+      (tent + 1 - (s.finished + 1)) (s.finished + 1) s.result (by omega)
+      (fun col h1 h2 => by
+        have hr := hrow col h1 (by omega)
+        obtain ⟨e, h3, _⟩ := ocmM_bounded hM inv.base hr (by omega : mn.getD col 0 < col) (by omega)
+        exact ⟨by rw [a2]; simp; omega, by rw [h3]; rfl⟩)
+    rw [b1] at he
+    dsimp only at he
+    cases he
+    have hk : s.finished + 1 + (tent + 1 - (s.finished + 1)) = tent + 1 := by omega
+    rw [hk] at b2 b4 b5
+    have key : ∀ j, j < res'.length → init ≤ Dof res' j ∧ Dof res' j ≤ init + (j : Int) * K := by
+      intro j hj
+      rw [b2] at hj
+      by_cases hjf : j ≤ s.finished
+      · rw [(Dof_congr (b3 j (by omega))).1]
+        exact ⟨inv.lo j (by omega), inv.hi j (by omega)⟩
+      · by_cases hjt : j ≤ tent
+        · rcases b5 j (by omega) (by omega) with ⟨e1, _⟩ | ⟨e0, e2, _⟩
+          · rw [Dof_of_getD e1]
+            dsimp only
+            obtain ⟨e, h3, h4, h5⟩ := ocmM_bounded hM inv.base (hrow j (by omega) hjt)
+              (by have := hrow j (by omega) hjt; omega : mn.getD j 0 < j) (by omega)
+            rw [h3]
+            exact newentry _ j e (hrow j (by omega) hjt) (by have := hrow j (by omega) hjt; omega) h4 h5
+          · rw [(Dof_congr e2).1]
+            exact ⟨inv.lo j e0, inv.hi j e0⟩
+        · rw [(Dof_congr (b4 j (by omega))).1]
+          exact ⟨inv.lo j (by omega), inv.hi j (by omega)⟩
+    exact key
+  · rw [if_neg hc1] at he
+    simp only [Nat.add_sub_cancel] at he
+    obtain ⟨e, h1, h2, h3⟩ := ocmM_bounded hM inv.base (Nat.le_refl s.finished) (Nat.lt_succ_self _) (by omega)
+    rw [h1] at he
+    have hri : s.finished + 1 < s.result.length := by omega
+    rw [List.getElem?_eq_getElem hri] at he
+    dsimp only at he
+    split at he
+    · cases he
+      have hne := newentry s.finished (s.finished + 1) e (Nat.le_refl _) (Nat.lt_succ_self _) h2 h3
+      have key : ∀ j, j < s.result.length →
+          init ≤ Dof (s.result.set (s.finished + 1) (s.finished, Dof s.result s.finished + e)) j ∧
+          Dof (s.result.set (s.finished + 1) (s.finished, Dof s.result s.finished + e)) j ≤ init + (j : Int) * K := by
+        intro j hj
+        rw [Dof_set _ _ _ _ hri]
+        split
+        · next hje => subst hje; exact hne
+        · exact ⟨inv.lo j hj, inv.hi j hj⟩
+      intro j hj
+      exact key j (by simpa using hj)
+    · obtain ⟨e', h1', _⟩ := ocmM_bounded hM inv.base (Nat.le_refl s.finished) (by omega : s.finished < s.tentative) (by omega)
+      rw [h1', List.getElem?_eq_getElem htl] at he
+      dsimp only at he
+      split at he <;> (cases he; exact fun j hj => ⟨inv.lo j hj, inv.hi j hj⟩)
+
+/-- **every value `online_column_minima` stores lies in `[init, init + j·K]`**, for any matrix
+    whose entries are the row's value plus an increment in `[0, K]` -/
+theorem onlineColumnMinima_bounded {M : Vec → Nat → Nat → Option Int} {size : Nat} {K : Int}
+    (hM : MBounded M size K) (hK : 0 ≤ K) (init : Int) (hsz : 0 < size) :
+    ∃ res, onlineColumnMinima M init size = some res ∧ res.length = size ∧
+      ∀ j, j < size → init ≤ Dof res j ∧ Dof res j ≤ init + (j : Int) * K := by
+  unfold onlineColumnMinima
+  rw [if_neg (by omega)]
+  have b0 : OcmInv size (⟨[(0, init)], 0, 0, 0⟩ : Ocm Int) :=
+    ⟨by simp, by simp, by simp; omega, Nat.le_refl _, by
+      intro j hj e he
+      have : j = (j - 1) + 1 := by omega
+      rw [this] at he; simp at he, ⟨init, rfl⟩⟩
+  have inv0 : OcmInvB init K size (⟨[(0, init)], 0, 0, 0⟩ : Ocm Int) := by
+    refine ⟨b0, ?_, ?_⟩
+    · intro j hj
+      have : j = 0 := by simpa using hj
+      subst this; exact Int.le_refl _
+    · intro j hj
+      have : j = 0 := by simpa using hj
+      subst this; simp [Dof]
+  have loop : ∀ (fuel : Nat) (s : Ocm Int), OcmInvB init K size s → s.finished ≤ size - 1 →
+      size - 1 - s.finished ≤ fuel →
+      ∃ s', ocmLoop M size fuel s = some s' ∧ OcmInvB init K size s' ∧ s'.finished = size - 1 := by
+    intro fuel
+    induction fuel with
+    | zero =>
+      intro s inv h1 h2
+      refine ⟨s, ?_, inv, by omega⟩
+      unfold ocmLoop
+      rw [if_neg (by omega)]
+    | succ fuel ih =>
+      intro s inv h1 h2
+      unfold ocmLoop
+      by_cases hlt : s.finished < size - 1
+      · rw [if_pos hlt]
+        obtain ⟨s1, e1, inv1, f1⟩ := ocmStep_bounded hM hK s inv hlt
+        simp only [e1]
+        exact ih s1 inv1 (by omega) (by omega)
+      · rw [if_neg hlt]
+        exact ⟨s, rfl, inv, by omega⟩
+  obtain ⟨s', e, inv, f⟩ := loop size _ inv0 (by simp) (by simp)
+  rw [e]
+  have h1 := inv.base.fin_lt
+  have h2 := inv.base.len_le
+  have hlen : s'.result.length = size := by omega
+  exact ⟨s'.result, rfl, hlen, fun j hj => ⟨inv.lo j (by omega), inv.hi j (by omega)⟩⟩
 
 end TW
